@@ -61,6 +61,14 @@ func grammarGuarded(c *core.Ctx, v ssa.Value, b *ssa.BasicBlock) bool {
 		if an.Origin(call.Call.Args[1]) == o {
 			return true
 		}
+		// the same field of the same (never reassigned) record or parameter, read twice
+		r1, p1 := deepAccessPath(an.Strip(call.Call.Args[1]))
+		r2, p2 := deepAccessPath(an.Strip(v))
+		if r1 != nil && r1 == r2 && len(p1) > 0 && strings.Join(p1, ".") == strings.Join(p2, ".") {
+			if _, isParam := r1.(*ssa.Parameter); isParam {
+				return true
+			}
+		}
 	}
 	return false
 }
@@ -176,6 +184,39 @@ func matchElement(c *core.Ctx, m *ssa.Function, v ssa.Value, b *ssa.BasicBlock) 
 	return false
 }
 
+// keyOnlyText: the boxed value only ever becomes an element of the variadic arguments of fmt.Errorf / a logger call.
+func keyOnlyText(mi *ssa.MakeInterface) bool {
+	if mi.Referrers() == nil {
+		return true
+	}
+	for _, ref := range *mi.Referrers() {
+		st, ok := ref.(*ssa.Store)
+		if !ok {
+			return false
+		}
+		ia, ok := st.Addr.(*ssa.IndexAddr)
+		if !ok || ia.X.Referrers() == nil {
+			return false
+		}
+		for _, r2 := range *ia.X.Referrers() {
+			sl, ok := r2.(*ssa.Slice)
+			if !ok || sl.Referrers() == nil {
+				continue
+			}
+			for _, r3 := range *sl.Referrers() {
+				call, ok := r3.(*ssa.Call)
+				if !ok {
+					return false
+				}
+				if !(an.IsFunc(call, "fmt", "Errorf") || (call.Call.StaticCallee() != nil && call.Call.StaticCallee().Pkg != nil && call.Call.StaticCallee().Pkg.Pkg.Path() == "log/slog")) {
+					return false
+				}
+			}
+		}
+	}
+	return true
+}
+
 func runPVRepo(c *core.Ctx) {
 	r := requireRoles(c)
 	if r == nil {
@@ -248,6 +289,19 @@ func runPVRepo(c *core.Ctx) {
 					}
 				}
 			}
+		}
+		// handed out by a helper of the module (name, ok := query.mountSource()): every return that hands out a name is
+		// traced in the helper's frame, at the place of that return
+		if hr := an.HelperReturns(o, func(h *ssa.Function) bool { return c.P.InModule(h) }); len(hr) > 0 {
+			for _, x := range hr {
+				if s0, isS := an.ConstString(x.Val); isS && s0 == "" {
+					continue
+				}
+				if ok, why := trace(x.Val, x.Ret.Block(), depth+1); !ok {
+					return false, why
+				}
+			}
+			return true, "every return of the helper hands out a checked name"
 		}
 		switch x := o.(type) {
 		case *ssa.Parameter:
@@ -739,20 +793,45 @@ func runPVPath(c *core.Ctx) {
 			continue
 		}
 		idp := fn.Params[1]
-		onlyKey := true
-		if idp.Referrers() != nil {
-			for _, ref := range *idp.Referrers() {
+		// (used directly, or handed to a lookup step of the store package — possibly generic — that uses it the same way;
+		// appearing in an error text is no path either)
+		var keyOnly func(v ssa.Value, depth int) bool
+		keyOnly = func(v ssa.Value, depth int) bool {
+			if v.Referrers() == nil || depth > 3 {
+				return depth <= 3
+			}
+			for _, ref := range *v.Referrers() {
 				switch x := ref.(type) {
 				case *ssa.Call:
-					if !an.IsMethod(x, r.CachePath, "Cache", "Get") {
-						onlyKey = false
+					if an.IsMethod(x, r.CachePath, "Cache", "Get") {
+						continue
+					}
+					h := x.Call.StaticCallee()
+					if h != nil && len(h.Blocks) > 0 && core.FuncPkgPath(h) == r.StorePath && !x.Call.IsInvoke() {
+						okArgs := true
+						for i, a := range x.Call.Args {
+							if a == v && (i >= len(h.Params) || !keyOnly(h.Params[i], depth+1)) {
+								okArgs = false
+							}
+						}
+						if okArgs {
+							continue
+						}
+					}
+					return false
+				case *ssa.MakeInterface:
+					// formatted into an error or log text
+					if !keyOnlyText(x) {
+						return false
 					}
 				case *ssa.DebugRef:
 				default:
-					onlyKey = false
+					return false
 				}
 			}
+			return true
 		}
+		onlyKey := keyOnly(idp, 0)
 		c.Check(onlyKey, "session-id:"+kn(c.P.FuncName(fn)), fn.Pos(), "the session id is used as a cache key only: %v", onlyKey)
 	}
 }
